@@ -255,7 +255,42 @@ def curved_cases(ck):
                                 case={'outer': oname, 'rect': [x0, x1, y0, y1], 'o': str(o)}, expected=exp, observed=repr(got), driver='curved')
 
 
+def far_outside_points(ck):
+    """path_encloses_pt(pt, opt, path) with the outside point opt far away compared with the polygon (a probe 1e2 .. 1e8 times longer than the edges it crosses):
+    the answer is the even-odd parity of pt, whatever outside point is used"""
+    poly = [0j, 6 + 0j, 6 + 5j, 4 + 5j, 4 + 2j, 2 + 2j, 2 + 5j, 0 + 5j]          # a concave "U"
+
+    def inside(z, pts):
+        c = False
+        for a_, b_ in zip(pts, pts[1:] + pts[:1]):
+            if (a_.imag > z.imag) != (b_.imag > z.imag) and z.real < a_.real + (z.imag - a_.imag) * (b_.real - a_.real) / (b_.imag - a_.imag):
+                c = not c
+        return c
+    queries = [1 + 1j, 3 + 1j, 3 + 3.5j, 5 + 4j, 1 + 4.3j, 3 + 4.9j, 5.5 + 0.4j, 0.3 + 2.2j, 3 + 2.4j, 4.5 + 3.1j]
+    for k in (1.0, 0.05, 5e-6, 300.0):
+        pts = [w * k for w in poly]
+        pth = sp.Path(*[sp.Line(a_, b_) for a_, b_ in zip(pts, pts[1:] + pts[:1])])
+        for far in (30.0 * k, 1e2, 1e4, 1e6):
+            for dirn in (complex(-0.8137, -0.5813), complex(0.3171, 0.9484), complex(-0.9931, 0.1173)):
+                opt = 3 * k + 2.5j * k + far * dirn * (1 if far > 10 * k else 1)
+                if inside(opt, pts):
+                    continue
+                for q in queries:
+                    z = q * k
+                    ck.case(fp=('far-outside-point', k, far, str(dirn), str(q)), nontrivial=True)
+                    want = inside(z, pts)
+                    try:
+                        got = sp.path_encloses_pt(z, opt, pth)
+                    except Exception as e:      # noqa
+                        got = e
+                    if got is not want and got != want:
+                        ck.disagree(key='path_encloses_pt/outside-point-far-away', site='svgpathtools/path.py:path_encloses_pt / Line.intersect', what='U-shaped polygon at scale %g, point %r, outside point %r (%g away): %r, even-odd parity says %r' % (k, z, opt, far, got, want),
+                                    case={'scale': k, 'far': far, 'q': str(q)}, expected=want, observed=repr(got), driver='far')
+                        return
+
+
 def run(ck):
+    far_outside_points(ck)
     quick = ck.tier == 'quick'
     ck.rules.append('polygon case = one lattice polygon of Area.tla (3..MaxV distinct grid vertices, canonical start); probe case = (polygon, half-integer '
                     'probe proved in general position); containment case = (polygon, triangle offset in general position); non-trivial = enclosed probe')
